@@ -232,9 +232,9 @@ pub fn field_values(ty: &FTy, all: &[Schema], salt: u8) -> Vec<GenVal> {
         FTy::OptU8 | FTy::GenericOptU8 | FTy::NilU8Fns | FTy::NilU8FnsB | FTy::NilU8FnsC | FTy::NilU8FnsD | FTy::NilU8With => vec![GenVal::some(GenVal::U8(d)), GenVal::none(), GenVal::some(GenVal::U8(24)), GenVal::some(GenVal::U8(255))],
         FTy::Str | FTy::StrRef | FTy::CowStr => vec![GenVal::Str(format!("s{}", d)), GenVal::Str(String::new()), GenVal::Str("x".repeat(24))],
         FTy::OptStr => vec![GenVal::some(GenVal::Str(format!("s{}", d))), GenVal::none(), GenVal::some(GenVal::Str(String::new()))],
-        FTy::BytesVec | FTy::CowBytes | FTy::ByteSliceRef => vec![GenVal::Bytes(vec![d]), GenVal::Bytes(vec![]), GenVal::Bytes(vec![7; 24])],
+        FTy::BytesVec | FTy::CowBytes | FTy::ByteSliceRef => vec![GenVal::Bytes(vec![d]), GenVal::Bytes(vec![]), GenVal::Bytes(vec![0x99; 24]), GenVal::Bytes(vec![0x18, 0xff])],
         FTy::ByteArr4 | FTy::ByteArrayT => vec![GenVal::Bytes(vec![d, 0, 255, 24]), GenVal::Bytes(vec![0; 4])],
-        FTy::OptBytesRef | FTy::OptByteVec => vec![GenVal::some(GenVal::Bytes(vec![d])), GenVal::none(), GenVal::some(GenVal::Bytes(vec![]))],
+        FTy::OptBytesRef | FTy::OptByteVec => vec![GenVal::some(GenVal::Bytes(vec![d])), GenVal::none(), GenVal::some(GenVal::Bytes(vec![])), GenVal::some(GenVal::Bytes(vec![0xfe, 0x18]))],
         FTy::IndefArr => vec![GenVal::Bytes(vec![d, 2]), GenVal::Bytes(vec![])],
         FTy::OptIndefArr => vec![GenVal::some(GenVal::Bytes(vec![d])), GenVal::none(), GenVal::some(GenVal::Bytes(vec![]))],
         FTy::Nested(j) => {
